@@ -16,7 +16,17 @@ Exhaustive enumeration (driver E1):
   * law "identity": a pipeline made only of empty Sequences yields the very same objects;
   * law "illtyped": every argument that is neither a run element, nor callable, nor a fill/compute
     element raises LenaTypeError from the constructor, at every position of a Sequence, a nested
-    Sequence, a Source tail, and (non-callable non-iterable) as first element of a Source.
+    Sequence, a Source tail, and (non-callable non-iterable) as first element of a Source. Among the
+    arguments are the objects lena's own adapters make: FillInto(...) objects (fill_into only) are
+    rejected; SourceEl objects (callable without an argument) may be rejected or taken as callables;
+  * law "adapters": objects made by Call, FillCompute, Run and FillRequest (also with renamed
+    methods) are elements: at every position of short good lists, in every form, judged by fold /
+    regroup like every other element; SourceEl(flow) is a first element of a Source (two forms);
+  * law "runif": RunIf(select, e1..en) for every inner list over the vocabulary, every kind of
+    selector (callable, class, Selector, list, tuple; selecting isolated values, runs of consecutive
+    values, all, none), the inner elements given as arguments / as one Sequence / grouped, the RunIf
+    alone, nested, in a Source tail and between other elements: every selected value is fed to the
+    inner elements as a flow of this ONE value, not selected values pass unchanged (RunIf docstring).
 """
 import itertools
 import json
@@ -28,6 +38,8 @@ import lena.math
 
 from mc.core import Result, result_violations
 from mc.ref import c01c05_common as cm
+from mc.ref import c01_adapters as ad
+from mc.ref.c01_adapters import build
 
 ID = "C01"
 LEVEL = "exploration"
@@ -37,6 +49,9 @@ RULE = ("one evaluation = one real pipeline object (a flat Sequence, one bracket
         "flow, judged against the materialised fold (flat form) or against the flat form (all other "
         "forms); a case is non-trivial when the list has at least two elements, the flow is not empty and "
         "the pipeline's result differs from its input; ill-typed constructions are always non-trivial; "
+        "a RunIf case (one RunIf with one inner list, selector, inner form and place over one flow, "
+        "judged against the RunIf docstring applied by hand) is non-trivial when the inner list is not "
+        "empty and at least two values of the flow are selected; "
         "cases are distinct by construction of the enumeration")
 ASSUMPTIONS = [
     "vocabulary of 17 element factories (see bounds_description); data are small ints, contexts are "
@@ -44,7 +59,13 @@ ASSUMPTIONS = [
     "results are compared after the pipeline is exhausted (values, order, value types, contexts); "
     "exceptions are compared by type only",
     "the per-element stream transformation is the element's own run method for run elements; for "
-    "callables and fill/compute elements it is the map / fill-then-compute reading of the Run docstring",
+    "callables and fill/compute elements it is the map / fill-then-compute reading of the Run docstring; "
+    "for RunIf (law runif) it is its docstring: each selected value alone through the elements given "
+    "(one set of element objects for the whole flow), the others unchanged",
+    "objects made by lena's adapters are judged by what they offer: run / __call__ / fill+compute make "
+    "an element (Call, FillCompute, Run, FillRequest), fill_into alone does not (FillInto: "
+    "LenaTypeError); a SourceEl (callable without an argument) in a tail may be rejected or taken as "
+    "a callable, as first element of a Source it stands for its flow",
     "a single tuple argument (Sequence((a, b))) is outside the alphabet: the docstring and the code "
     "disagree about it and the statement does not mention it; a tuple among several arguments is ill-typed",
 ]
@@ -66,10 +87,18 @@ def describe(tier):
     N = _maxlen(tier)
     return ("element lists of length 0..%d over %d factories %s; flows of m values -1, 0, 1, ... bare and as "
             "(i, {'i': i}) pairs, m in %s; per list of length n = 0..%d all %s pipeline forms; ill-typed "
-            "arguments %s at every position of good lists of length 0..2 over %s"
+            "arguments %s at every position of good lists of length 0..2 over %s (of these %s may also be "
+            "taken as callables); adapter objects %s at every position of good lists of length 0..%d and "
+            "in every ordered pair, all forms; RunIf(selector, inner list) for every inner list of length "
+            "0..%d over the factories, selectors %s (inner lists longer than 1: %s), inner forms %s, places "
+            "%s, flows of m = %s values "
+            "bare, with contexts and with None values"
             % (N, len(VOCAB), VOCAB,
                {"n=%d" % n: list(_flow_lengths(tier, n)) for n in sorted(set((min(N, 3), N)))},
-               N, [len(forms(n)) for n in range(N + 1)], [b for b in BAD], GOOD_FOR_BAD))
+               N, [len(forms(n)) for n in range(N + 1)], [b for b in BAD], GOOD_FOR_BAD, OPEN,
+               ad.ACCEPTED_ORDER, 2 if tier == "thorough" else 1, _runif_maxlen(tier),
+               ad.SELECTOR_ORDER, _runif_selectors(tier, 2), RUNIF_INNER_FORMS, RUNIF_PLACES,
+               list(_runif_flow_lengths(tier))))
 
 
 # ---------------------------------------------------------------------------------------------------
@@ -153,6 +182,9 @@ def forms(n):
             out.append({"kind": "source-list/" + k, "top": "source-list", "tree": t})
     out.append({"kind": "source-callable/flat", "top": "source-callable", "tree": flat})
     out.append({"kind": "source-callable/deep", "top": "source-callable", "tree": [[[flat]]]})
+    # the first element is a SourceEl adapter around the flow (an iterable) or around a callable
+    out.append({"kind": "source-adapter", "top": "source-el-list", "tree": flat})
+    out.append({"kind": "source-adapter", "top": "source-el-callable", "tree": flat})
     for k in range(n + 1):
         out.append({"kind": "source-nested", "top": "source-nested", "tree": flat, "k": k})
         out.append({"kind": "source-nested", "top": "source-nested-callable", "tree": flat, "k": k})
@@ -172,7 +204,7 @@ def _args(tree, els):
 
 def make_thunk(form, specs, flow):
     """Build the pipeline of *form* from fresh elements; return a thunk that runs it over *flow*."""
-    els = [cm.build(s) for s in specs]
+    els = [build(s) for s in specs]
     top = form["top"]
     args = _args(form["tree"], els)
     if top == "sequence":
@@ -184,6 +216,10 @@ def make_thunk(form, specs, flow):
     if top == "source-callable":
         src = lena.core.Source(lambda: iter(flow), *args)
         return lambda: src()
+    if top in ("source-el-list", "source-el-callable"):
+        first = lena.core.SourceEl(flow if top == "source-el-list" else (lambda: iter(flow)))
+        src = lena.core.Source(first, *args)
+        return lambda: src()
     k = form["k"]
     first = flow if top == "source-nested" else (lambda: iter(flow))
     inner = lena.core.Source(first, *args[:k])
@@ -194,24 +230,28 @@ def make_thunk(form, specs, flow):
 # ---------------------------------------------------------------------------------------------------
 # reference: the materialised fold, with the stream transformation of each element kind written out
 
+def step(el, values):
+    """The stream transformation of ONE standalone element applied to a list of values."""
+    run = getattr(el, "run", None)
+    if callable(run):
+        return list(run(iter(values)))
+    if callable(el):
+        return [el(v) for v in values]
+    for v in values:
+        el.fill(v)
+    return list(el.compute())
+
+
 def fold(specs, flow):
     out = list(flow)
     for s in specs:
-        el = cm.build(s)
-        run = getattr(el, "run", None)
-        if callable(run):
-            out = list(run(iter(out)))
-        elif callable(el):
-            out = [el(v) for v in out]
-        else:
-            for v in out:
-                el.fill(v)
-            out = list(el.compute())
+        out = step(build(s), out)
     return out
 
 
 STATELESS = frozenset(["inc", "Call(inc)", "Variable", "Filter(even)", "RunIf", "Reverse", "Sequence()",
-                       "Split([])"])
+                       "Split([])", "Call(obj,call=other)", "Run(inc)", "Run(None,run=genfunc)",
+                       "Run(obj,run=go)"])
 
 
 def check_shared(res, specs, flowspec, ref):
@@ -225,7 +265,7 @@ def check_shared(res, specs, flowspec, ref):
     for top in ("sequence", "source"):
         case = {"law": "shared", "els": list(specs), "flow": [kind, m], "top": top}
         try:
-            s = lena.core.Sequence(*[cm.build(sp) for sp in specs])
+            s = lena.core.Sequence(*[build(sp) for sp in specs])
             flow = cm.make_flow(kind, m)
             if top == "sequence":
                 pipe = lena.core.Sequence(s, s)
@@ -244,7 +284,7 @@ def check_shared(res, specs, flowspec, ref):
     flow2 = [v + 100 for v in cm.make_flow(kind, m)]
     ref2 = cm.outcome(lambda: fold(specs, flow2))
     try:
-        s = lena.core.Sequence(*[cm.build(sp) for sp in specs])
+        s = lena.core.Sequence(*[build(sp) for sp in specs])
         g1, g2 = s.run(cm.make_flow(kind, m)), s.run(list(flow2))
         o1, o2 = [], []
         live = [(g1, o1), (g2, o2)]
@@ -419,7 +459,7 @@ def check_containers(res):
                     case = {"law": "containers", "container": cname, "els": list(specs), "m": m, "top": top}
                     ref = cm.outcome(lambda: fold(specs, cm.make_flow("bare", m)))
                     try:
-                        els = [cm.build(sp) for sp in specs]
+                        els = [build(sp) for sp in specs]
                         flow = CONTAINERS[cname](cm.make_flow("bare", m))
                         if top == "sequence":
                             got = cm.outcome(lambda: lena.core.Sequence(*els).run(flow))
@@ -543,8 +583,15 @@ BAD = {
     "()": lambda: (),
     "(inc,)": lambda: (cm.inc,),
 }
+# objects made by lena's adapters that are not elements of a Sequence (FillInto: fill_into only) ...
+BAD.update(ad.REJECTED)
+# ... and SourceEl objects, callable without an argument: rejected by the constructor or taken as
+# callables (the statement leaves it open, R2) - but never a LenaTypeError later, during the run
+OPEN = sorted(ad.OPEN)
+BAD.update(ad.OPEN)
 # as first element of a Source only non-callable non-iterable objects are ill-typed
-BAD_FIRST = ["5", "1.5", "None", "object()", "run=5", "fill-only", "fill=5,compute=5"]
+BAD_FIRST = ["5", "1.5", "None", "object()", "run=5", "fill-only", "fill=5,compute=5",
+             "FillInto(inc)", "FillInto(Filter(even))"]
 GOOD_FOR_BAD = ["inc", "Slice(1,3)", "Sum", "Count", "Sequence()", "Split([inc,Sum],2)"]
 PLACES = ["sequence", "nested", "nested-alone", "source-tail", "source-tail-nested", "source-first"]
 
@@ -553,7 +600,7 @@ def check_illtyped(res, bad, good, pos, place):
     """Construct a sequence with the ill-typed argument *bad* at position *pos* among the good
     elements; it must raise LenaTypeError from the constructor."""
     case = {"law": "illtyped", "bad": bad, "good": list(good), "pos": pos, "place": place}
-    els = [cm.build(s) for s in good]
+    els = [build(s) for s in good]
     args = els[:pos] + [BAD[bad]()] + els[pos:]
     flow = cm.make_flow("bare", 3)
     S, Src = lena.core.Sequence, lena.core.Source
@@ -589,6 +636,17 @@ def check_illtyped(res, bad, good, pos, place):
         o = cm.outcome(run)
         later = cm.show(o, 120)
     res.case(nontrivial=True, outcome=(observed, bad, place))
+    if bad in ad.OPEN:
+        # may be taken as a callable; then the run fails as Python does, not with a LenaTypeError
+        if observed == "LenaTypeError" or (observed == "constructed"
+                                           and not (o[0] == "exc" and o[1] == "LenaTypeError")):
+            return case
+        res.violation(case, observed if later is None else "constructed; run: " + later,
+                      "LenaTypeError from the constructor, or accepted as a callable and no "
+                      "LenaTypeError during the run",
+                      {"law": "illtyped", "bad": bad, "place": place, "observed": observed,
+                       "late": later is not None})
+        return case
     if observed != "LenaTypeError":
         res.violation(case, observed if later is None else "constructed; run: " + later,
                       "LenaTypeError from the constructor",
@@ -619,11 +677,159 @@ def _illtyped_cases():
 
 
 # ---------------------------------------------------------------------------------------------------
+# law "adapters": objects made by lena's adapters are elements like any other
+
+def _adapter_lists(tier, names):
+    """Every accepted adapter object of *names* at every position of every good list of length 0..1
+    (thorough: 0..2), and every ordered pair of adapter objects that begins with one of *names*."""
+    longest = 2 if tier == "thorough" else 1
+    for a in names:
+        for k in range(longest + 1):
+            for good in itertools.product(GOOD_FOR_BAD, repeat=k):
+                for pos in range(k + 1):
+                    yield tuple(good[:pos]) + (a,) + tuple(good[pos:])
+    for a in names:
+        for b in ad.ACCEPTED_ORDER:
+            yield (a, b)
+
+
+# ---------------------------------------------------------------------------------------------------
+# law "runif": RunIf(select, e1, ..., en) feeds every selected value to its elements as a flow of this
+# one value; not selected values pass unchanged
+
+RUNIF_INNER_FORMS = ["args", "sequence", "grouped"]
+RUNIF_PLACES = ["alone", "nested", "source-tail", "between"]
+
+
+def _runif(selname, inner_form, els):
+    S = lena.core.Sequence
+    select = ad.SELECTORS[selname][0]()
+    if inner_form == "args":
+        return lena.flow.RunIf(select, *els)
+    if inner_form == "sequence":
+        return lena.flow.RunIf(select, S(*els))
+    # grouped: the first element in a Sequence of its own, the others in a second one
+    return lena.flow.RunIf(select, S(*els[:1]), S(*els[1:]))
+
+
+def _runif_reference(inner, pred, flow, between):
+    """Written from the docstring of RunIf: the elements are the ones the user gave (one set for the
+    whole flow), each selected value goes through them alone."""
+    els = [build(s) for s in inner]
+    values = step(build("inc"), list(flow)) if between else list(flow)
+    out = []
+    for v in values:
+        if pred(v):
+            part = [v]
+            for el in els:
+                part = step(el, part)
+            out.extend(part)
+        else:
+            out.append(v)
+    return step(build("Reverse"), out) if between else out
+
+
+def _runif_flow_lengths(tier):
+    return (0, 1, 2, 3, 4, 5)
+
+
+def _runif_flows(tier):
+    for m in _runif_flow_lengths(tier):
+        for kind in cm.FLOW_KINDS_SHORT:
+            yield (kind, m)
+
+
+def check_runif(res, inner, selname, flowspec):
+    kind, m = flowspec
+    pred = ad.SELECTORS[selname][1]
+    S, Src = lena.core.Sequence, lena.core.Source
+    case = None
+    refs = {}
+    for between in (False, True):
+        refs[between] = cm.outcome(lambda: _runif_reference(inner, pred, cm.make_flow(kind, m), between))
+    consecutive, nontrivial = {}, {}
+    for between in (False, True):
+        seen = cm.make_flow(kind, m)        # the values that reach the RunIf
+        if between:
+            try:
+                seen = step(build("inc"), seen)
+            except Exception:
+                seen = []
+        marks = [bool(pred(v)) for v in seen]
+        consecutive[between] = any(a and b for a, b in zip(marks, marks[1:]))
+        nontrivial[between] = len(inner) >= 1 and sum(marks) >= 2
+    for inner_form in RUNIF_INNER_FORMS:
+        for place in RUNIF_PLACES:
+            case = {"law": "runif", "inner": list(inner), "selector": selname, "flow": [kind, m],
+                    "inner_form": inner_form, "place": place}
+            flow = cm.make_flow(kind, m)
+            expected = refs[place == "between"]
+            try:
+                r = _runif(selname, inner_form, [build(s) for s in inner])
+                if place == "alone":
+                    pipe = S(r)
+                    thunk = lambda: pipe.run(flow)
+                elif place == "nested":
+                    pipe = S(S(), S(S(r)))
+                    thunk = lambda: pipe.run(flow)
+                elif place == "source-tail":
+                    pipe = Src(flow, r)
+                    thunk = lambda: pipe()
+                else:
+                    pipe = S(build("inc"), r, build("Reverse"))
+                    thunk = lambda: pipe.run(flow)
+            except Exception as e:
+                got = ("exc", type(e).__name__ + " (at construction)", None)
+            else:
+                got = cm.outcome(thunk)
+            res.case(nontrivial=nontrivial[place == "between"], outcome=(got[0], got[1]))
+            if not cm.same(got, expected):
+                res.violation(case, cm.show(got), cm.show(expected),
+                              {"law": "runif", "selector": selname,
+                               "consecutive_selected_values": consecutive[place == "between"],
+                               "diff": cm.diff_kind(got, expected)},
+                              note="expected = each selected value run alone through the elements given "
+                                   "to RunIf, not selected values unchanged")
+    return case
+
+
+def _runif_maxlen(tier):
+    return 3 if tier == "thorough" else 2
+
+
+def _runif_selectors(tier, n):
+    """All kinds of selector for inner lists of length 0..1 (thorough: every length); for longer lists
+    the five predicates given as plain callables (the form of the selector and the composition of the
+    inner list do not meet in the code paths the statement is about)."""
+    if tier == "thorough" or n <= 1:
+        return ad.SELECTOR_ORDER
+    return ad.SELECTOR_ORDER[:5]
+
+
+def _run_runif_lists(res, tier, lists):
+    case = None
+    for inner in lists:
+        for selname in _runif_selectors(tier, len(inner)):
+            for fs in _runif_flows(tier):
+                case = check_runif(res, inner, selname, fs)
+        res.sample(case, 2)
+
+
+# ---------------------------------------------------------------------------------------------------
 # shards
 
 def shards(tier):
     out = [{"kind": "short", "bound": "len<=1"}, {"kind": "illtyped", "bound": "len<=1"},
-           {"kind": "callables", "bound": "len<=1"}]
+           {"kind": "callables", "bound": "len<=1"},
+           {"kind": "runif", "n": 1, "prefix": [], "bound": "len<=1"}]
+    if tier == "thorough":
+        for a in ad.ACCEPTED_ORDER:
+            out.append({"kind": "adapters", "names": [a], "bound": "len<=1"})
+    else:
+        out.append({"kind": "adapters", "names": list(ad.ACCEPTED_ORDER), "bound": "len<=1"})
+    for n in range(2, _runif_maxlen(tier) + 1):
+        for a in VOCAB:
+            out.append({"kind": "runif", "n": n, "prefix": [a], "bound": "len<=%d" % n})
     for a in VOCAB:
         out.append({"kind": "lists", "n": 2, "prefix": [a], "bound": "len<=2"})
     for a in VOCAB:
@@ -667,6 +873,18 @@ def run_shard(p, tier):
         for bad, good, pos, place in _illtyped_cases():
             case = check_illtyped(res, bad, good, pos, place)
         res.sample(case, 1)
+    elif p["kind"] == "adapters":
+        for specs in _adapter_lists(tier, p["names"]):
+            for fs in _flows(tier, len(specs)):
+                case = check_compose(res, specs, fs)
+            res.sample(case, 1)
+    elif p["kind"] == "runif":
+        if p["n"] == 1:
+            lists = [()] + [(a,) for a in VOCAB]
+        else:
+            lists = [tuple(p["prefix"]) + tail
+                     for tail in itertools.product(VOCAB, repeat=p["n"] - len(p["prefix"]))]
+        _run_runif_lists(res, tier, lists)
     else:
         rest = p["n"] - len(p["prefix"])
         for tail in itertools.product(VOCAB, repeat=rest):
@@ -710,6 +928,10 @@ def replay(case):
     if law == "illtyped":
         check_illtyped(res, case["bad"], tuple(case["good"]), case["pos"], case["place"])
         return result_violations(res)
+    if law == "runif":
+        check_runif(res, tuple(case["inner"]), case["selector"], tuple(case["flow"]))
+        return [v for v in result_violations(res)
+                if all(v["case"].get(k) == case.get(k) for k in ("inner_form", "place"))]
     raise ValueError("unknown law %r" % (law,))
 
 
@@ -717,9 +939,16 @@ LEVEL_TEXT = ("bounded exhaustive exploration: every element list of length 0..3
               "element factories, every flow range(0..4) bare and with contexts, and for each list every "
               "bracketing into nested Sequences and every Source form is built from fresh objects and run on "
               "the real code; the flat form is compared with a hand-written materialised fold of the "
-              "elements' stream transformations, every other form with the flat form; 16 kinds of ill-typed "
-              "argument are placed at every position of Sequences, nested Sequences and Source tails")
+              "elements' stream transformations, every other form with the flat form; 22 kinds of ill-typed "
+              "argument (among them FillInto and SourceEl adapter objects) are placed at every position of "
+              "Sequences, nested Sequences and Source tails; 11 objects made by the Call / FillCompute / Run "
+              "/ FillRequest adapters go through the same fold and regroup laws; RunIf with every inner "
+              "element list of length 0..2 (thorough: 0..3), 9 selectors (quick: 5 for inner lists longer "
+              "than 1), 3 inner forms and 4 places is "
+              "compared with its docstring applied by hand (each selected value alone through the inner "
+              "elements)")
 LEVEL_NOTE = ("holds for the enumerated vocabulary and bounds only; results are compared after exhaustion "
               "(laziness is C02's subject); a single tuple argument is outside the alphabet")
 TECHNIQUE = ("exhaustive enumeration of programs x bracketings x flows on the real code against a "
-             "materialised-fold reference and a flat-vs-regrouped differential relation")
+             "materialised-fold reference, a flat-vs-regrouped differential relation and a hand-written "
+             "reading of the RunIf docstring")
